@@ -606,9 +606,18 @@ def linearise(case, out):
             ops.append(["listen %s" % arg[tid], "listen L%d" % sid[tid], {}])
         return len(ops) - 1
 
+    col_dropped = [False]
+
     def disconnect():
         ops.append(["drop 0", "drop last=1", {}])
         return len(ops) - 1
+
+    def must_be_disconnected(line):
+        """an observation that only a disconnection explains, but no chain detachment by a destructor was seen (it may
+        have found the chain empty without writing): legal only once the collector thread has let its handles go"""
+        if not col_dropped[0]:
+            raise ValueError("%s while the collector thread still holds its handles" % line)
+        return disconnect()
 
     for line in out:
         w = line.split()
@@ -617,12 +626,15 @@ def linearise(case, out):
         if w[0] == "op":
             if w[2] == "emit":
                 pending[w[1]] = int(w[3])
+            elif w[2] == "drop":
+                col_dropped[0] = True
             elif w[2] == "reg":
                 # hook_up contract: the coroutine is already waiting when the registration function gets the collector;
                 # if its subscription has not been seen yet, the history is the one the contract promises
                 if int(w[1]) not in sid:
                     new_listener(int(w[1]))
             elif w[1] == "ctl" and drop_at is None:
+                col_dropped[0] = True
                 drop_at = disconnect()
         elif w[0] == "ret":
             rel_of[int(w[3])] = w[4]
@@ -634,6 +646,8 @@ def linearise(case, out):
             # what the operation wrote to the chain head (semantic, not by operation name): null = the chain was detached
             # (collector call / destructor), a listener = that listener is subscribed
             wrote = rest[2].split(">")[1] if rest[0] in ("xchg", "cas+") and ">" in rest[2] else rest[2] if rest[0] == "store" else None
+            if wrote is None and rest[0] == "load" and rest[2] == "null" and w[1] in pending:
+                wrote = "null"      # a collector call that only looks at an empty chain has detached the empty chain
             if wrote is None:
                 continue
             if wrote == "null":
@@ -653,6 +667,8 @@ def linearise(case, out):
             tid = int(w[1][1:])
             what = w[2]
             if tid not in sid:
+                if drop_at is None and what == "canceled":
+                    drop_at = must_be_disconnected(line)
                 at = new_listener(tid)          # never subscribed: it found the emitter disconnected
             elif what.startswith("v"):
                 v = int(what[1:])
@@ -664,7 +680,7 @@ def linearise(case, out):
                 at = emit_at[nvals[tid][1]]
             else:
                 if drop_at is None:
-                    raise ValueError("%s before any disconnection" % line)
+                    drop_at = must_be_disconnected(line)
                 at = drop_at
             ops[at][2].setdefault(tid, []).append(what)
         elif w[0] == "final":
